@@ -28,4 +28,4 @@ neutron_mass_unc = 0.00000000047
 #: atomic mass constant (kg / u)
 atomic_mass_constant = 1.660538782e-27 #(83) kg / u
 #: electron mass (u)
-electron_mass = 5.48577990946e-4 #(22) u
+electron_mass = 5.4857990946e-4 #(22) u [CODATA 2010]
